@@ -48,14 +48,17 @@ class LoopSpec:
 class LoopCtx:
     """what an invariant may talk about"""
 
+    rename: dict = {}
+
     def __init__(self, ex, st, fr, k, n, elem, old_st):
         self.ex, self.st, self.fr, self.k, self.n, self.elem, self.old_st = ex, st, fr, k, n, elem, old_st
+        self.rename = dict(getattr(ex.L, "_rename", {}))
 
     def var(self, name):
-        return self.ex.lookup(self.st, self.fr, name)
+        return self.ex.lookup(self.st, self.fr, self.rename.get(name, name))
 
     def old(self, name):
-        return self.ex.lookup(self.old_st, self.fr, name)
+        return self.ex.lookup(self.old_st, self.fr, self.rename.get(name, name))
 
     def term(self, name, ty=None):
         return self.ex.to_term(self.st, self.var(name), ty)
@@ -670,9 +673,49 @@ class Loops:
         ft.heap[hid] = ListObj(sv=new)
 
     # ------------------------------------------------------------------------------------------
+    def resolve_names(self, spec: LoopSpec, node, st, fr):
+        """a LoopSpec names loop-carried local variables; if the code renamed one of them (a harmless edit) map the
+        spec name to the unique unclaimed variable the loop body assigns or mutates that has the declared type"""
+        ex = self.ex
+        assigned = []
+        for n in pyast.walk(pyast.Module(body=list(node.body), type_ignores=[])):
+            tgt = None
+            if isinstance(n, pyast.Name) and isinstance(n.ctx, pyast.Store):
+                tgt = n.id
+            elif isinstance(n, pyast.Call) and isinstance(n.func, pyast.Attribute) and isinstance(n.func.value, pyast.Name) and n.func.attr in ("append", "extend", "add", "update", "remove", "discard", "pop", "insert"):
+                tgt = n.func.value.id
+            if tgt is not None and tgt not in assigned:
+                assigned.append(tgt)
+        spec_names = [nm for nm in spec.modifies if "." not in nm]
+        missing = [nm for nm in spec_names if nm not in assigned and not self._has(st, fr, nm)]
+        extra = [a for a in assigned if a not in spec_names]
+        mapping = {}
+        for nm in missing:
+            want = spec.modifies[nm]
+            cands = []
+            for a in extra:
+                if a in mapping.values():
+                    continue
+                if self._has(st, fr, a):
+                    try:
+                        t = ex.ty_of(st, ex.lookup(st, fr, a))
+                    except Unsupported:
+                        t = None
+                    if t == want or (isinstance(want, tuple) and want[0] == "bag") or (isinstance(t, tuple) and isinstance(want, tuple) and t[0] == want[0] and (t[1] is None or t[1:] == want[1:])):
+                        cands.append(a)
+                else:
+                    cands.append(a)
+            if len(cands) == 1:
+                mapping[nm] = cands[0]
+            else:
+                raise Unsupported(f"LoopSpec variable {nm} not found in the loop (renamed? candidates {cands})")
+        self._rename = mapping
+        return mapping
+
     def havoc(self, st, fr, spec: LoopSpec):
         ex = self.ex
-        for nm, ty in spec.modifies.items():
+        for nm0, ty in spec.modifies.items():
+            nm = getattr(self, "_rename", {}).get(nm0, nm0)
             if "." in nm:
                 base, attr = nm.split(".", 1)
                 oref = ex.lookup(st, fr, base)
@@ -741,6 +784,7 @@ class Loops:
         ex = self.ex
         out = []
         tag = f"{key[0]}#loop{key[1]}"
+        self.resolve_names(spec, node, st, fr)
         k0 = z3.IntVal(0)
         # base sequence
         kk = z3.Int(f"k!{fresh_id()}")
@@ -793,6 +837,7 @@ class Loops:
             return self.while_unroll(node, st, fr, key)
         tag = f"{key[0]}#loop{key[1]}"
         out = []
+        self.resolve_names(spec, node, st, fr)
         pre = st.fork()
         self.oblige(f"{tag}/inv-init", st, spec.inv(LoopCtx(ex, st, fr, None, None, None, pre)), "inv-init")
         s1 = st.fork()
